@@ -190,6 +190,50 @@ example : ((RW.new 3 10 false 5).run [(5, 1), (14, 2), (15, 3), (25, 4)]).reduce
 
 example : List.Pairwise (· ≤ ·) (5 :: [(5, 1), (14, 2), (15, 3), (25, 4)].map (·.1)) := by decide
 
+/-! ### RollingWindow when the clock goes backwards (outside the property; characterisation of the code)
+
+The theorems above assume a non-decreasing clock.  `timex.Now()` is `time.Since(initTime)` with
+`initTime = time.Now().AddDate(-1, -1, -1)`; `AddDate` builds its result with `time.Date`, which carries no monotonic
+reading, so `time.Since` falls back to the wall clock: `timex.Now()` follows the wall clock and *can* go backwards
+when the system time is stepped back (observed by the glue test `timex-inittime-has-no-monotonic-reading`).  What the
+window then does (`RW.spanB` …, tied to the source by `tie_rwSpanBackwards` / `tie_rwUpdateTailBackwards`, compared
+with the real code by the correspondence harness): -/
+
+/-- with a clock that has not gone back, the backwards-aware model is the model -/
+theorem rw_backwards_model_agrees (rw : RW) (now v : Nat) (h : rw.lastTime ≤ now) :
+    rw.addB now v = rw.add now v ∧ rw.reduceB now = rw.reduce now := by
+  have hs : rw.spanB now = rw.span now := by simp [RW.spanB, Nat.not_lt.2 h]
+  have hu : rw.updateOffsetB now = rw.updateOffset now := by simp [RW.updateOffsetB, RW.updateOffset, hs, Nat.not_lt.2 h]
+  exact ⟨by simp [RW.addB, RW.add, hu], by simp [RW.reduceB, RW.reduce, RW.diffB, RW.diff, hs]⟩
+
+/-- **less than one interval back**: nothing expires, `Add` adds to the newest bucket, `Reduce` sees what it would see
+at `lastTime`; **one interval or more back**: `Reduce` visits nothing — the window reads as empty although its values
+were added during the last `size` intervals — and the next `Add` runs the reset loop over all `size` buckets. -/
+theorem rw_backwards_characterised (rw : RW) (now : Nat) (h : now < rw.lastTime) :
+    (rw.lastTime - now < rw.interval → rw.spanB now = 0 ∧ rw.updateOffsetB now = rw ∧ rw.reduceB now = rw.reduce rw.lastTime)
+    ∧ (rw.interval ≤ rw.lastTime - now → rw.spanB now = rw.size ∧ rw.reduceB now = []
+        ∧ (0 < rw.size → (rw.updateOffsetB now).buckets = RW.resetLoop rw.size rw.offset rw.size rw.buckets
+            ∧ now ≤ (rw.updateOffsetB now).lastTime)) := by
+  constructor
+  · intro hlt
+    have hs : rw.spanB now = 0 := by simp [RW.spanB, h, hlt]
+    have hs0 : rw.span rw.lastTime = 0 := by
+      unfold RW.span; simp only [Nat.sub_self, Nat.zero_div]; split <;> omega
+    refine ⟨hs, by simp [RW.updateOffsetB, hs], ?_⟩
+    simp [RW.reduceB, RW.reduce, RW.diffB, RW.diff, hs, hs0]
+  · intro hge
+    have hs : rw.spanB now = rw.size := by simp [RW.spanB, h, Nat.not_lt.2 hge]
+    refine ⟨hs, by simp [RW.reduceB, RW.diffB, hs]; intro h0 _; omega, fun hpos => ?_⟩
+    have hne : ¬ rw.size = 0 := by omega
+    simp [RW.updateOffsetB, hs, hne, h]
+
+/-- size 3, interval 10: values in three buckets; the clock steps back 25: Reduce sees nothing; an Add then wipes all -/
+example : ((RW.new 3 10 false 0).run [(5, 1), (15, 2), (25, 3)]).reduceB 0 = []
+    ∧ ((RW.new 3 10 false 0).run [(5, 1), (15, 2), (25, 3)]).reduceB 25 = [[1], [2], [3]]
+    ∧ ((RW.new 3 10 false 0).run [(5, 1), (15, 2), (25, 3)]).reduceB 12 = [[1], [2], [3]]
+    ∧ (((RW.new 3 10 false 0).run [(5, 1), (15, 2), (25, 3)]).addB 0 9).buckets = [[], [], [9]]
+    ∧ (((RW.new 3 10 false 0).run [(5, 1), (15, 2), (25, 3)]).addB 0 9).lastTime = 0 := by decide
+
 /-! ## Cache -/
 
 theorem cache_new_inv {T : Type} (limit : Nat) (x : T) : ({ limit := limit, data := [], lru := [], timers := x } : CacheG T).Inv :=
